@@ -520,6 +520,12 @@ func (cm *BasicConnMgr) getConnsToClose() []network.Conn {
 		// lock this to protect from concurrent modifications from connect/disconnect events
 		s := cm.segments.get(inf.id)
 		s.Lock()
+		if inf.firstSeen.After(gracePeriodStart) {
+			// The peer connected since the scan above: its temporary entry (early tags)
+			// was turned into a real one and its grace period has only just begun.
+			s.Unlock()
+			continue
+		}
 		if len(inf.conns) == 0 && inf.temp {
 			// handle temporary entries for early tags -- this entry has gone past the grace period
 			// and still holds no connections, so prune it.
